@@ -36,6 +36,8 @@ def run(ctx):
                       "parameter and a foreign class's: one entry out per entry in, bound to the instance, each with its OWN name and kind", floor=1)
     ctx.rule("R06.t", "slot dispatch model: Parameter._trigger_event interpreted for an instance-level and a class-level Parameter x the owner's batch open / closed: the watchers of a slot "
                       "('p:bounds' dependants) go through the OWNER's namespace -- queued while its batch is open, flushed there otherwise", floor=1)
+    ctx.rule("R06.h", "flush model (shared with R04.h): at the flush every queued watcher -- the callers of depends methods are such watchers -- runs once with the last event per (parameter, "
+                      "kind): a slot event ('a:bounds') and a value event of the same parameter in one batch do not shadow each other", floor=1)
     ctx.rule("R06.c", "the construction path reaches the installation: Parameterized.__init__ calls param._update_deps(init=True) after the values were set, and the depends decorator records "
                       "watch / on_init / the dependency list in _dinfo, the only thing the metaclass reads", floor=2)
     ctx.not_decided += ["that a watcher runs its callback once per batch and only on a change (C05 / C03 decide that for every watcher, these included)",
@@ -72,3 +74,5 @@ def run(ctx):
     depends_model.report_resolve_mcs(ctx, "R06.m")
     from checks.shared import trigger_event_model
     trigger_event_model(ctx, "R06.t")
+    from checks.shared import flush_model
+    flush_model(ctx, "R06.h")
